@@ -177,6 +177,15 @@ void World::opEnc(const Item& op)
         probe("nth-call-on-same-encoder");
     if (minB == maxB)
         probe("min-equals-max");
+    for (auto& fr : frames)
+    {
+        wire::FrameParse fp = wire::parseFrame(fr.data(), fr.size());
+        if (fr.size() > fp.used + 64)
+        {
+            probe("frame-padded-by-more-than-64");
+            break;
+        }
+    }
 
     // ----- C07: walker
     model::Walked w;
@@ -658,10 +667,17 @@ void World::opTecmp(const Item& op)
         else
             body[4] = static_cast<uint8_t>(op.get("ilen"));
     }
-    if (op.has("p1o") && !body.empty())
-        body[static_cast<size_t>(std::max<int64_t>(0, op.get("p1o"))) % body.size()] = static_cast<uint8_t>(op.get("p1v"));
-    if (op.has("p2o") && !body.empty())
-        body[static_cast<size_t>(std::max<int64_t>(0, op.get("p2o"))) % body.size()] = static_cast<uint8_t>(op.get("p2v"));
+    static const char* const pokeKeys[2][3] = {{"p1o", "p1v", "p1x"}, {"p2o", "p2v", "p2x"}};
+    for (auto& pk : pokeKeys)
+    {
+        if (!op.has(pk[0]) || body.empty())
+            continue;
+        uint8_t& byte = body[static_cast<size_t>(std::max<int64_t>(0, op.get(pk[0]))) % body.size()];
+        if (op.has(pk[2]))
+            byte ^= static_cast<uint8_t>(op.get(pk[2]));
+        else
+            byte = static_cast<uint8_t>(op.get(pk[1]));
+    }
     if (op.has("cut"))
         body.resize(std::min<size_t>(body.size(), static_cast<size_t>(std::max<int64_t>(0, op.get("cut")))));
     h.plen = static_cast<uint16_t>(op.has("plen") ? op.get("plen") : static_cast<int64_t>(body.size()));
